@@ -3,7 +3,7 @@
 use bbf::bdd::Bdd;
 use bbf::expressions::{Expression, ExpressionNode};
 use bbf::table::TruthTable;
-use bbf::traits::{BooleanFunction, Equality, Evaluate, Implication, SemanticEq};
+use bbf::traits::{BooleanFunction, Equality, Evaluate, Implication, PowerSet, SemanticEq};
 use std::collections::{BTreeMap, BTreeSet};
 use std::io::{BufRead, Write};
 use std::panic::{catch_unwind, AssertUnwindSafe};
@@ -703,9 +703,28 @@ fn query(pool: &[Option<Obj>], toks: &[&str]) -> String {
                         )
                     }};
                 }
+                // generate_power_set: every assignment of the inputs, in the order the code produces them
+                fn pset_str(vals: Vec<BTreeMap<String, bool>>) -> String {
+                    if vals.is_empty() {
+                        return "-".to_string();
+                    }
+                    vals.iter().map(|v| pt(&v.values().cloned().collect::<Vec<_>>())).collect::<Vec<_>>().join(",")
+                }
                 match &o {
-                    Obj::E(e) => en!(e, false, "-".to_string()),
-                    Obj::T(t) => en!(t, false, "-".to_string()),
+                    Obj::E(e) => format!("{} pset={}", en!(e, false, "-".to_string()), pset_str(e.generate_power_set())),
+                    Obj::T(t) => {
+                        let rows: Vec<Vec<bool>> = (0..t.row_count()).map(|i| t.row(i)).collect();
+                        let rwo: Vec<String> = (0..t.row_count()).map(|i| { let (p, b) = t.row_with_output(i); format!("{}:{}", pt(&p), b as u8) }).collect();
+                        format!(
+                            "{} pset={} rows={} rwo={} nrows={} nvars={}",
+                            en!(t, false, "-".to_string()),
+                            pset_str(t.generate_power_set()),
+                            pts(&rows),
+                            if rwo.is_empty() { "-".to_string() } else { rwo.join(",") },
+                            t.row_count(),
+                            t.variable_count()
+                        )
+                    }
                     Obj::B(b) => en!(b, true, b.node_count().to_string()),
                 }
             }
